@@ -7,5 +7,5 @@ import SqlModel.Filters.StripWhitespace
 import SqlModel.Filters.Spaces
 import SqlModel.Filters.Serializer
 import SqlModel.Filters.Output
-/-! # SqlModel.Filters — the formatting side of sqlparse, stage 2 (token filters, statement filters, serializer, output formats) -/
 import SqlModel.Filters.Stage2
+/-! # SqlModel.Filters — the formatting side of sqlparse, stage 2 (token filters, statement filters, serializer, output formats) -/
